@@ -21,7 +21,7 @@ use std::collections::BTreeMap;
 pub static SPEC: PropSpec = PropSpec {
     id: "C19",
     level: "exploration",
-    rule: "renamings: generated programs (all item / expression forms of the clean lattice) renamed consistently in all six namespaces (types+traits, variants, fields, methods, functions, locals) with names dealt from adversarial pools (16 Go keywords that goml does not reserve, 30 predeclared Go identifiers, runtime helper and import names, compiler temporaries t<k> x<k> mtmp<k> ret<k> cond<k> env<k> jump<k> x__<k> main0 init, mangled-looking names Tuple2_int32_int32 ref_int32_x dyn__T closure_env_main_0); the renamed program must compile to valid Go and print what refsem prints (which equals the original program's output). name sets: 4 type, 2 trait, 2 method, 3 function and 3 variant names drawn from the exhaustive pool of identifiers over {A,B,_,1} / {a,b,_,1} up to length 3 (42 each), used in every composite; sets are drawn until every unordered pair of type names co-occurred (quick) / 12,000 sets (thorough). non-trivial: accepted programs; distinct by name-set / renaming hash",
+    rule: "cross-package: 16 two-package projects sharing a variant / struct / function / trait name between Main and the imported package in every combination, with a generic enum instantiated at int32 and at the imported enum (valid Go + expected output). renamings: generated programs (all item / expression forms of the clean lattice) renamed consistently in all six namespaces (types+traits, variants, fields, methods, functions, locals) with names dealt from adversarial pools (16 Go keywords that goml does not reserve, 30 predeclared Go identifiers, runtime helper and import names, compiler temporaries t<k> x<k> mtmp<k> ret<k> cond<k> env<k> jump<k> x__<k> main0 init, mangled-looking names Tuple2_int32_int32 ref_int32_x dyn__T closure_env_main_0); the renamed program must compile to valid Go and print what refsem prints (which equals the original program's output). name sets: 4 type, 2 trait, 2 method, 3 function and 3 variant names drawn from the exhaustive pool of identifiers over {A,B,_,1} / {a,b,_,1} up to length 3 (42 each), used in every composite; sets are drawn until every unordered pair of type names co-occurred (quick) / 12,000 sets (thorough). non-trivial: accepted programs; distinct by name-set / renaming hash",
     eval_counter: "programs",
     assumptions: &["relative to refsem, gomini vet (duplicate declarations, keyword misuse) and gomini execution", "goml-level name clashes (value namespace: functions, locals, unqualified variants) are avoided by dealing distinct names within that namespace"],
     crash_is_violation: false,
